@@ -218,6 +218,34 @@ func (m *C08) AfterMsg(w *eng.World, st *eng.MsgStep) {
 				for _, r := range msg.RemoveIssuers {
 					m.noteMove("class-issuers/"+c.Id, addrOf(r))
 				}
+				// exact effect: issuers' = issuers - removed + added
+				want := map[string]bool{}
+				for _, ci := range pre.ClassIssuers {
+					if ci.ClassKey == c.Key {
+						want[string(ci.Issuer)] = true
+					}
+				}
+				for _, r := range msg.RemoveIssuers {
+					delete(want, string(addrOf(r)))
+				}
+				for _, a := range msg.AddIssuers {
+					want[string(addrOf(a))] = true
+				}
+				got := map[string]bool{}
+				for _, ci := range post.ClassIssuers {
+					if ci.ClassKey == c.Key {
+						got[string(ci.Issuer)] = true
+					}
+				}
+				same := len(got) == len(want)
+				for k := range want {
+					if !got[k] {
+						same = false
+					}
+				}
+				if !same {
+					w.Violation("C08", "issuer-set-differs-from-message", "UpdateClassIssuers(add %v, remove %v) on class %s accepted but the issuer set is now %d entries, the message implies %d (a removed issuer keeps, or an added issuer lacks, the role)", msg.AddIssuers, msg.RemoveIssuers, c.Id, len(got), len(want))
+				}
 			}
 		}
 		roleWhy = "class admin"
@@ -347,12 +375,21 @@ func (m *C08) AfterMsg(w *eng.World, st *eng.MsgStep) {
 	case *basetypes.MsgSetClassCreatorAllowlist:
 		signer, roleOK, roleWhy = addrOf(msg.Authority), isAuth(msg.Authority), "governance authority"
 		fr = only(tAllowlist, nil)
+		if st.Res.OK && (len(post.Allowlist) == 0 && msg.Enabled || len(post.Allowlist) > 0 && post.Allowlist[0].Enabled != msg.Enabled) {
+			w.Violation("C08", "allowlist-flag-differs-from-message", "SetClassCreatorAllowlist(%v) accepted but state says %v", msg.Enabled, post.Allowlist)
+		}
 	case *basetypes.MsgAddClassCreator:
 		signer, roleOK, roleWhy = addrOf(msg.Authority), isAuth(msg.Authority), "governance authority"
 		fr = only(tCreator, pkIs([]byte(addrOf(msg.Creator))))
+		if st.Res.OK && !hasCreator(post, addrOf(msg.Creator)) {
+			w.Violation("C08", "creator-not-added", "AddClassCreator(%s) accepted but the creator is not on the list", msg.Creator)
+		}
 	case *basetypes.MsgRemoveClassCreator:
 		signer, roleOK, roleWhy = addrOf(msg.Authority), isAuth(msg.Authority), "governance authority"
 		fr = only(tCreator, pkIs([]byte(addrOf(msg.Creator))))
+		if st.Res.OK && hasCreator(post, addrOf(msg.Creator)) {
+			w.Violation("C08", "creator-not-removed", "RemoveClassCreator(%s) accepted but the creator is still on the list", msg.Creator)
+		}
 	case *basetypes.MsgUpdateClassFee:
 		signer, roleOK, roleWhy = addrOf(msg.Authority), isAuth(msg.Authority), "governance authority"
 		fr = only(tClassFee, nil)
@@ -438,6 +475,15 @@ func (m *C08) AfterMsg(w *eng.World, st *eng.MsgStep) {
 		m.formerRejected = true
 	}
 	m.sealedFrozen(w, st)
+}
+
+func hasCreator(s *snap.Snap, a sdk.AccAddress) bool {
+	for _, c := range s.AllowedCreators {
+		if bytes.Equal(c.Address, a) {
+			return true
+		}
+	}
+	return false
 }
 
 func anyOf(fs []func(snap.RowChange) bool) func(snap.RowChange) bool {
